@@ -1977,7 +1977,8 @@ func (ls *LState) Status(th *LState) string {
 
 func (ls *LState) Resume(th *LState, fn *LFunction, args ...LValue) (ResumeState, error, []LValue) {
 	isstarted := th.isStarted()
-	if !isstarted {
+	if !isstarted && th.stack.IsEmpty() {
+		// a thread made by NewThread gets its body here; one made by coroutine.create already has it
 		base := 0
 		th.stack.Push(callFrame{
 			Fn:         fn,
